@@ -329,6 +329,15 @@ func execCB(line string) h.Result {
 
 func genCB(g *h.Gen) {
 	r := g.R
+	// directed: a clean blank cell, then Fill with zero-width / control runes in the same style (the repaired Fill stores a
+	// blank: the cell stays clean; the pinned Fill stores the rune: dirty), then with an ordinary rune (dirty on both)
+	for _, fr := range []int{0x200b, 0x9b, 0x7f, 0x301, 0, -1, 0x110000, ' '} {
+		v := ""
+		if fillZWSuffix() != "" {
+			v = "V fz; "
+		}
+		g.Emit("cb %sR 2 1; D 0 0 0; D 1 0 0; F %d 0,0,0,0,0,-,-; Q 0 0; G 1 0; F 120 0,0,0,0,0,-,-; Q 0 0; G 1 0", v, fr)
+	}
 	n := g.N(3000, 200000)
 	for i := 0; i < n; i++ {
 		var ops []string
